@@ -91,6 +91,11 @@ BAIT = [
     _op("SUB", _op("ADD", X, Y), Y), _op("ADD", _op("SUB", X, Y), Y), _op("SUB", X, _op("SUB", X, Y)),
     _op("ISZERO", _op("LT", X, Y)), _op("ISZERO", _op("GT", X, Y)), _op("GT", _op("ISZERO", X), _c(0)),
     _op("LT", _c(0), _op("ISZERO", X)), _op("EQ", _op("ISZERO", X), _c(0)),
+    # two terms over the same operands in one block (a rule that rewrites one of them meets the other one)
+    _op("AND", _op("ISZERO", X), _op("EQ", X, _c(0))), _op("OR", _op("EQ", _c(0), X), _op("ISZERO", X)),
+    _op("ADD", _op("LT", X, Y), _op("GT", Y, X)), _op("XOR", _op("ISZERO", _op("ISZERO", X)), _op("ISZERO", X)),
+    _op("ADD", _op("SUB", X, Y), _op("ISZERO", _op("SUB", X, Y))), _op("OR", _op("AND", X, Y), _op("AND", Y, X)),
+    _op("ADD", _op("EQ", X, Y), _op("ISZERO", _op("XOR", X, Y))), _op("SUB", _op("NOT", _op("NOT", X)), _op("NOT", X)),
 ]
 
 
